@@ -13,7 +13,7 @@ from harness.props import tuner_common as T
 from harness.validate import validate
 
 FLAGS = {"rows_differ_from_delivered", "delivered_not_handed", "table_changed_on_disk", "row_config_or_stamp_wrong",
-         "tuner_best_not_optimal", "loaded_best_not_optimal", "trial_statistics", "overall_statistics", "raised"}
+         "tuner_best_not_optimal", "loaded_best_not_optimal", "printed_best_not_optimal", "trial_statistics", "overall_statistics", "raised"}
 NAN = -1
 
 
@@ -38,6 +38,9 @@ class ModeScheduler(D.ScriptedScheduler):
     def metric_mode(self):
         return self._mode
 
+    def metric_names(self):
+        return ["m", "m2"] if isinstance(self._mode, list) else ["m"]
+
 
 def one_run(hist, conf, mode, vkind, interval):
     from syne_tune.results_callback import StoreResultsCallback
@@ -47,7 +50,8 @@ def one_run(hist, conf, mode, vkind, interval):
     vals = values_fn(vkind)
     sched = ModeScheduler(script, conf.get("kind", "stop"), mode)
     store = StoreResultsCallback()
-    c = dict(conf, update_interval=interval)
+    multi = isinstance(mode, list)
+    c = dict(conf, update_interval=interval, m2=multi)
     run = D.run_tuner(c, script, scheduler=sched, values=vals, store=store, keep_dir=True)
     tuner, backend = run["tuner"], run["backend"]
     ev = []
@@ -105,9 +109,30 @@ def one_run(hist, conf, mode, vkind, interval):
         ostats = stat(ts.overall_metric_statistics) if ts is not None else [0, 0, 0, 0, False]
         ev.append({"a": "Final", "rows": rows, "rowsback": rowsback, "cfgok": bool(cfgok), "bestT": bestT, "bestL": bestL,
                    "pstats": pstats, "ostats": ostats})
+        # several metrics with different modes, and the summary Tuner.run printed
+        import re as _re
+        t2 = l2 = -2
+        if multi and ts is not None and ts.overall_metric_statistics.count > 0:
+            try:
+                with contextlib.redirect_stdout(io.StringIO()):
+                    t2 = int(tuner.best_config(metric=1)[0])
+                    if int(tuner.best_config(metric="m")[0]) != bestT or int(tuner.best_config(metric="m2")[0]) != t2:
+                        t2 = -1          # the metric given by name and by index must agree
+            except Exception as exc:
+                ev.append({"a": "Crash", "where": "best_config(metric=1)", "exc": repr(exc)[:200]})
+            if bestL != -2:
+                try:
+                    bc2 = exp.best_config(metric="m2")
+                    l2 = int(bc2["trial_id"]) if "trial_id" in bc2 else int(bc2["config_x"])
+                except Exception as exc:
+                    ev.append({"a": "Crash", "where": "load_experiment.best_config(m2)", "exc": repr(exc)[:200]})
+        pm = _re.findall(r"^m: best (\S+) for trial-id (\d+)\s*$", run.get("stdout", ""), flags=_re.M)
+        p = int(pm[-1][1]) if pm else -2
+        ev.append({"a": "BestMore", "rows": rows, "t2": t2, "l2": l2, "p": p})
     finally:
         shutil.rmtree(path, ignore_errors=True)
-    return {"id": 0, "conf": {"min": mode == "min"}, "ev": ev}, {"end": end, "mode": mode, "vkind": vkind, "interval": interval}
+    m1, m2 = (mode[0], mode[1]) if multi else (mode, "max" if mode == "min" else "min")
+    return {"id": 0, "conf": {"min": m1 == "min", "min2": m2 == "min"}, "ev": ev}, {"end": end, "mode": mode, "vkind": vkind, "interval": interval}
 
 
 def run(rep, tier, seed):
@@ -137,7 +162,7 @@ def run(rep, tier, seed):
     for name in ("pause", "stop", "pause_nofail", "nw1"):
         gen, conf = T.generate(name, seed * 100 + 71 + k, n, minlen=140, depth=420)
         for gi, g in enumerate(gen):
-            mode = "min" if (gi + k) % 2 == 0 else "max"
+            mode = [["min", "max"], "max", "min", ["max", "min"], ["min", "min"]][(gi + k) % 5]
             vkind = "nan" if gi % 3 == 0 else "int"
             interval = 0 if gi % 2 == 0 else 1e9
             tr, m = one_run(g, conf, mode, vkind, interval)
